@@ -21,6 +21,7 @@ import (
 type workReq struct {
 	Src   string `json:"src"`
 	Setup string `json:"setup"` // "" or "core"
+	Kind  string `json:"kind"`  // "" = run script; "cancel" = wall-clock cancellation test (Src = JSON cancelReq)
 }
 
 type workResp struct {
@@ -50,11 +51,20 @@ func startWorker() *worker {
 // runIsolated returns the driver-format answer ("ok ...", "err ...", "panic ...") or
 // "timeout" / "crashed ..." when the child had to be killed or died.
 func runIsolated(src, setup string, limit time.Duration) string {
+	return runIsolatedReq(workReq{Src: src, Setup: setup}, limit)
+}
+
+// runIsolatedRaw sends a request of another kind (payload in Src).
+func runIsolatedRaw(kind, payload string, limit time.Duration) string {
+	return runIsolatedReq(workReq{Kind: kind, Src: payload}, limit)
+}
+
+func runIsolatedReq(req workReq, limit time.Duration) string {
 	if theWorker == nil {
 		theWorker = startWorker()
 	}
 	w := theWorker
-	b, _ := json.Marshal(workReq{Src: src, Setup: setup})
+	b, _ := json.Marshal(req)
 	if _, err := w.in.Write(append(b, '\n')); err != nil {
 		w.cmd.Process.Kill()
 		w.cmd.Wait()
@@ -108,6 +118,24 @@ func workerMain() {
 	for sc.Scan() {
 		var req workReq
 		if err := json.Unmarshal(sc.Bytes(), &req); err != nil {
+			continue
+		}
+		if req.Kind == "cancel" {
+			var cr cancelReq
+			_ = json.Unmarshal([]byte(req.Src), &cr)
+			rb, _ := json.Marshal(cancelInWorker(cr))
+			b, _ := json.Marshal(workResp{Answer: string(rb)})
+			out.Write(append(b, '\n'))
+			out.Flush()
+			if !json.Valid(rb) {
+				continue
+			}
+			// a spinning callback / goroutine may have been left behind: start from a clean process
+			var resp cancelResp
+			_ = json.Unmarshal(rb, &resp)
+			if !resp.Returned {
+				os.Exit(0)
+			}
 			continue
 		}
 		var setup func(e *env.Env)
